@@ -12,7 +12,7 @@ def run(c):
               "grid points, parentheses, `+ 0` rule breakers, optional __what__) and vector-vector binary operators (+ - * / == > < >= <= with "
               "default, on(..) and ignoring(..) one-to-one matching; half of them agg by (L) (x op x | agg without () (x) | ..) op agg by (L) (..)), "
               "each run through the real Engine; cases that leave float64's exact domain, depend on a weight tie or on a scalar-left comparison tie "
-              "are regenerated. numeric cases (2 of 8, oracle only): magnitudes 1e6..1e12 with spread down to magnitude/1e9 and mixed magnitudes. "
+              "are regenerated. extended-real cases (1 of 8): one aggregation or over-time operator over the selector's series turned into ±Inf / MaxFloat64 / ±0 points by an engine-side scalar operation ((m + 0) * 2^1008 overflowing for the larger values, / 0, * 0 + MaxFloat64, * -0), judged by the ERat layer of the model and by big.Rat definitions over -inf | finite | +inf (sig def-*-inf). numeric cases (2 of 8, oracle only): magnitudes 1e6..1e12 with spread down to magnitude/1e9 and mixed magnitudes. "
               "window cases (1 of 8): the bare cursor on non-uniform grids. non-trivial = rewritten by a reduction rule, or result with missing "
               "points, or non-empty result of a binary operator, or numeric case, or cursor moved > 2 times")
     c.assumptions += ["storage contract: QuerySeries merges the rows of one (group, bucket of the point's LOD) with tsValues.merge and selects with "
@@ -61,7 +61,7 @@ META = {
              "equal matching label sets; grouping (engine-side and pushed-down) depends only on the set of resolved tag indices (groupKey_dedup, rule0_dedup). The model is tied to the code by diffing every result point of generated expressions run through the real "
              "engine on time scales built by the real GetTimescale; direct oracles: def-* (big.Rat definitions), def-*-numeric (outside the exact "
              "domain, relative tolerance), reduce-* (pushed-down vs engine-side evaluation)."),
-    "note": ("Round 4: avg is inside the two-grid statement (overtime_pushdown_two_grids_avg); rules #2 and #3 have two-grid forms "
+    "note": ("Round 5: infinite points are PRESENT points (only NaN is missing): ERat layer of the model, max_is_definition/min_is_definition, stream xeval; DEFECT reported with fix fixes/C27-infinite-points.diff (min_over_time/max_over_time start from +-MaxFloat64, quantile and quantile_over_time multiply an infinite neighbour by a zero weight): the check is red on a tree without it (infinite_points_old_violates). Not generated: quantile with q outside [0,1] (the engine fills every timestamp, also those without points, with +-Inf). Round 4: avg is inside the two-grid statement (overtime_pushdown_two_grids_avg); rules #2 and #3 have two-grid forms "
              "(rule2_two_grids, rule3_two_grids via two_grid_core: the pushed-down point of a group and bucket equals the engine's evaluation on "
              "the one-second grid for sum/min/max compositions; rule #3 without any restriction on events per second); subqueries: "
              "subquery_is_window_of_results (f over the window of the operand's RESULTS with the subquery's own range), the C27-r3-2 mutation is "
